@@ -169,4 +169,176 @@ theorem no_occ_byteset {h n : Slice} {bs : ApproximateByteSet} {pos k : Nat}
   rw [e, hbs _ (by omega)] at hnc
   cases hnc
 
+/-! ### the comparison loops -/
+
+theorem fwdCmp_spec (fn : String) (n h : Slice) (pos i : Nat) (c : Ctr)
+    (hb : pos + n.len ≤ h.len) :
+    ∃ i' c', Finder.fwdCmp fn n h pos i c = .ok i' c' ∧ i ≤ i' ∧ (i ≤ n.len → i' ≤ n.len) ∧
+      MatchR h n pos i i' ∧ (i' < n.len → n.getD i' ≠ h.getD (pos + i')) ∧
+      c'.steps = c.steps + (i' - i) ∧ c'.loads = c.loads := by
+  fun_induction Finder.fwdCmp fn n h pos i generalizing c with
+  | case1 i hi ih =>
+    simp only [get_ok n _ hi, get_ok h _ (show pos + i < h.len by omega), pure_bind']
+    by_cases hab : n.getD i = h.getD (pos + i)
+    · simp only [hab, beq_self_eq_true, if_true, M.bind_run, tick_run]
+      obtain ⟨i', c', e, h1, h2, h3, h4, h5, h6⟩ := ih { c with steps := c.steps + 1 }
+      refine ⟨i', c', e, by omega, fun _ => h2 (by omega), ?_, h4, ?_, h6⟩
+      · intro t ht1 ht2
+        by_cases hti : t = i
+        · subst hti; exact hab
+        · exact h3 t (by omega) ht2
+      · simp only at h5; omega
+    · have : (n.getD i == h.getD (pos + i)) = false := by simpa using hab
+      simp only [this, Bool.false_eq_true, if_false, M.pure_run]
+      exact ⟨i, c, rfl, Nat.le_refl _, fun h => h, MatchR.empty _ _ _ _, fun _ => hab, by simp, rfl⟩
+  | case2 i hi =>
+    exact ⟨i, c, rfl, Nat.le_refl _, fun h => h, MatchR.empty _ _ _ _, fun h => absurd h hi, by simp, rfl⟩
+
+theorem smallBackCmp_spec (n h : Slice) (pos shift j : Nat) (c : Ctr)
+    (hb : pos + n.len ≤ h.len) (hj : j < n.len) :
+    ∃ j' c', Finder.smallBackCmp n h pos shift j c = .ok j' c' ∧ j' ≤ j ∧
+      MatchR h n pos (j' + 1) (j + 1) ∧
+      (j' ≤ shift ∨ n.getD j' ≠ h.getD (pos + j')) ∧ (shift ≤ j → shift ≤ j') ∧
+      c'.steps = c.steps + (j - j') ∧ c'.loads = c.loads := by
+  fun_induction Finder.smallBackCmp n h pos shift j generalizing c with
+  | case1 j hjs ih =>
+    simp only [get_ok n _ hj, get_ok h _ (show pos + j < h.len by omega), pure_bind']
+    by_cases hab : n.getD j = h.getD (pos + j)
+    · simp only [hab, beq_self_eq_true, if_true, M.bind_run, tick_run,
+        csub_of_le _ (show 1 ≤ j by omega), M.pure_run]
+      obtain ⟨j', c', e, h1, h2, h3, h4, h5, h6⟩ := ih { c with steps := c.steps + 1 } (by omega)
+      refine ⟨j', c', e, by omega, ?_, h3, fun _ => h4 (by omega), ?_, h6⟩
+      · intro t ht1 ht2
+        by_cases htj : t = j
+        · subst htj; exact hab
+        · exact h2 t ht1 (by omega)
+      · simp only at h5; omega
+    · have : (n.getD j == h.getD (pos + j)) = false := by simpa using hab
+      simp only [this, Bool.false_eq_true, if_false, M.pure_run]
+      exact ⟨j, c, rfl, Nat.le_refl _, MatchR.empty _ _ _ _, Or.inr hab, fun h => h, by simp, rfl⟩
+  | case2 j hjs =>
+    exact ⟨j, c, rfl, Nat.le_refl _, MatchR.empty _ _ _ _, Or.inl (by omega), fun h => h, by simp, rfl⟩
+
+theorem largeBackCmp_spec (n h : Slice) (pos j : Nat) (c : Ctr)
+    (hb : pos + n.len ≤ h.len) (hj : j ≤ n.len) :
+    ∃ r c', Finder.largeBackCmp n h pos j c = .ok r c' ∧
+      (r = true → MatchR h n pos 0 j) ∧
+      (r = false → ∃ m, m < j ∧ n.getD m ≠ h.getD (pos + m)) ∧
+      c'.steps ≤ c.steps + j ∧ c'.loads = c.loads := by
+  induction j generalizing c with
+  | zero => exact ⟨true, c, rfl, fun _ => MatchR.empty _ _ _ _, (fun hh => by cases hh), by simp, rfl⟩
+  | succ j ih =>
+    simp only [Finder.largeBackCmp, M.bind_run, tick_run]
+    rw [get_ok n _ (show j < n.len by omega)]
+    simp only [M.pure_run]
+    rw [get_ok h _ (show pos + j < h.len by omega)]
+    simp only [M.pure_run]
+    by_cases hab : n.getD j = h.getD (pos + j)
+    · simp only [hab, bne_self_eq_false, Bool.false_eq_true, if_false]
+      obtain ⟨r, c', e, h1, h2, h3, h4⟩ := ih { c with steps := c.steps + 1 } (by omega)
+      refine ⟨r, c', e, ?_, ?_, by simp only at h3; omega, h4⟩
+      · intro hr t ht1 ht2
+        by_cases htj : t = j
+        · subst htj; exact hab
+        · exact h1 hr t ht1 (by omega)
+      · intro hr
+        obtain ⟨m, hm1, hm2⟩ := h2 hr
+        exact ⟨m, by omega, hm2⟩
+    · have : (n.getD j != h.getD (pos + j)) = true := by simpa using hab
+      simp only [this, if_true, M.pure_run]
+      exact ⟨false, _, rfl, (fun hh => by cases hh), fun _ => ⟨j, by omega, hab⟩, by simp, rfl⟩
+
+/-! ### the prefilter block -/
+
+theorem isEffective_ok (s : PrefilterState) (c : Ctr) :
+    ∃ b s', s.isEffective c = .ok (b, s') c := by
+  unfold PrefilterState.isEffective
+  split
+  · exact ⟨_, _, rfl⟩
+  · split
+    · exact ⟨_, _, rfl⟩
+    · simp only []
+      split
+      · exact ⟨_, _, rfl⟩
+      · exact ⟨_, _, rfl⟩
+
+theorem pre_isEffective_ok (p : Pre) (c : Ctr) :
+    ∃ b st, p.isEffective c = .ok (b, { p with state := st }) c := by
+  obtain ⟨b, s', e⟩ := isEffective_ok p.state c
+  exact ⟨b, s', by simp only [Pre.isEffective, bind_ok e]; rfl⟩
+
+/-- the strategy of an optional prefilter is `strat` -/
+def PreOK (strat : Slice → M (Option Nat)) (pre : Option Pre) : Prop :=
+  ∀ p, pre = some p → p.strat = strat
+
+/-- `&haystack[a..]` -/
+def Slice.sub (s : Slice) (a : Nat) : Slice := ⟨s.mem, s.off + a, s.len - a⟩
+
+/-- What the loops need from the prefilter strategy, relative to an abstract loop invariant
+`Inv pos` ("the search may resume at `pos`") and an abstract `Done` ("answering `None` is
+right"): run on `&haystack[a..]` it returns normally; `None` justifies `Done`; `Some(c)`
+justifies advancing by `c`. -/
+def StratOK (haystack : Slice) (strat : Slice → M (Option Nat)) (Inv : Nat → Prop)
+    (Done : Prop) : Prop :=
+  ∀ a, a ≤ haystack.len → ∀ c, ∃ r c', strat (Slice.sub haystack a) c = .ok r c' ∧
+    (r = none → Inv a → Done) ∧ (∀ cnd, r = some cnd → Inv a → Inv (a + cnd))
+
+theorem prefilterStep_spec (fn : String) (needle haystack : Slice)
+    (strat : Slice → M (Option Nat)) (Inv : Nat → Prop) (Done : Prop)
+    (pre : Option Pre) (pos : Nat) (c : Ctr)
+    (hpos : pos + needle.len ≤ haystack.len) (hpre : PreOK strat pre)
+    (hstrat : pre ≠ none → StratOK haystack strat Inv Done)
+    (hdone : ∀ q, Inv q → haystack.len < q + needle.len → Done) :
+    ∃ pre' st c', Finder.prefilterStep fn needle haystack pre pos c = .ok (pre', st) c' ∧
+      PreOK strat pre' ∧ (pre = none → pre' = none ∧ st = some (0, false) ∧ c' = c) ∧
+      (st = none → Inv pos → Done) ∧
+      (∀ delta ran, st = some (delta, ran) → (Inv pos → Inv (pos + delta)) ∧
+        pos + delta + needle.len ≤ haystack.len ∧ (ran = false → delta = 0)) := by
+  cases pre with
+  | none =>
+    refine ⟨none, some (0, false), c, rfl, hpre, fun _ => ⟨rfl, rfl, rfl⟩, nofun, ?_⟩
+    intro delta ran h
+    cases h
+    exact ⟨fun h => h, hpos, fun _ => rfl⟩
+  | some p =>
+    have hs : p.strat = strat := hpre p rfl
+    obtain ⟨b, st, e⟩ := pre_isEffective_ok p c
+    simp only [Finder.prefilterStep, bind_ok e]
+    have hok' : ∀ st', PreOK strat (some { p with state := st' }) := by
+      intro st' p' hp'
+      cases hp'
+      exact hs
+    cases b with
+    | false =>
+      refine ⟨_, some (0, false), c, rfl, hok' st, nofun, nofun, ?_⟩
+      intro delta ran h
+      cases h
+      exact ⟨fun h => h, hpos, fun _ => rfl⟩
+    | true =>
+      have hd : haystack.drop (fn ++ ": &haystack[pos..]") pos = pure (Slice.sub haystack pos) := by
+        simp [Slice.drop, Slice.sub, show pos ≤ haystack.len by omega]
+      obtain ⟨r, c1, er, hr1, hr2⟩ := hstrat (by simp) pos (by omega) c
+      have ef : Pre.find { p with state := st } (Slice.sub haystack pos) c =
+          .ok (r, { p with state := st.update (r.getD (Slice.sub haystack pos).len) })
+            { c1 with steps := c1.steps + 1 } := by
+        simp only [Pre.find, hs, bind_ok er, M.bind_run, tick_run, M.pure_run]
+      simp only [if_true, hd, pure_bind', bind_ok ef]
+      cases r with
+      | none =>
+        refine ⟨_, none, _, rfl, hok' _, nofun, fun _ => hr1 rfl, ?_⟩
+        intro delta ran h; cases h
+      | some cnd =>
+        simp only []
+        by_cases hfit : pos + cnd + needle.len > haystack.len
+        · simp only [hfit, if_true]
+          refine ⟨_, none, _, rfl, hok' _, nofun, ?_, ?_⟩
+          · intro _ hinv
+            exact hdone _ (hr2 cnd rfl hinv) hfit
+          · intro delta ran h; cases h
+        · simp only [hfit, if_false]
+          refine ⟨_, some (cnd, true), _, rfl, hok' _, nofun, nofun, ?_⟩
+          intro delta ran h
+          cases h
+          exact ⟨hr2 cnd rfl, by omega, nofun⟩
+
 end Memchr.TwoWay
